@@ -44,6 +44,7 @@ type c04Case struct {
 	Reversed bool     `json:"reversed"`
 	N        int      `json:"n"`
 	V        []v2.Vec `json:"vertices,omitempty"`
+	Shuffle  uint64   `json:"segment_order_seed,omitempty"` // != 0: the fast SDF is built by Mesh2D from the segments in a permuted order
 }
 
 var c04Classes = []string{"small", "convex", "star", "rectilinear", "small", "monotone", "sliver", "circle"}
@@ -305,6 +306,10 @@ func c04Generate(c *Ctx, idx int) *c04Case {
 			continue
 		}
 		cs.V, cs.N = v, len(v)
+		if r.P(0.2) {
+			cs.Shuffle = r.U64() | 1
+			cs.Place += "+segments-shuffled"
+		}
 		return cs
 	}
 	return nil
@@ -568,9 +573,22 @@ func c04Judge(fast, slow float64, o c04Answer, tol float64) string {
 }
 
 // c04Build constructs both library shapes and the geometry record.
-func c04Build(v []v2.Vec) (fast, slow sdf.SDF2, g *c04Geom, err error) {
+func c04Build(v []v2.Vec, shuffle ...uint64) (fast, slow sdf.SDF2, g *c04Geom, err error) {
 	cp := func() []v2.Vec { return append(make([]v2.Vec, 0, len(v)), v...) } // VertexToLine appends
-	if fast, err = sdf.Polygon2D(cp()); err != nil {
+	if len(shuffle) > 0 && shuffle[0] != 0 {
+		// the same outline handed to Mesh2D directly, segments in an arbitrary order (a set of segments has no order)
+		ls := sdf.VertexToLine(cp(), true)
+		pr := newRng(shuffle[0], "C04", "segment-order")
+		perm := pr.Perm(len(ls))
+		out := make([]*sdf.Line2, len(ls))
+		for i, j := range perm {
+			out[i] = ls[j]
+		}
+		fast, err = sdf.Mesh2D(out)
+	} else {
+		fast, err = sdf.Polygon2D(cp())
+	}
+	if err != nil {
 		return
 	}
 	if slow, err = sdf.Mesh2DSlow(sdf.VertexToLine(cp(), true)); err != nil {
@@ -615,7 +633,7 @@ func c04RunPolygon(c *Ctx, cs *c04Case, nPts int) {
 			os.WriteFile(file, b, 0644)
 		}
 	}
-	fast, slow, g, err := c04Build(cs.V)
+	fast, slow, g, err := c04Build(cs.V, cs.Shuffle)
 	if err != nil {
 		c.Violate("", "construct "+err.Error(), cs)
 		return
@@ -852,7 +870,7 @@ func replayC04(c *Ctx, path string) {
 			cs = g
 		}
 	}
-	fast, slow, g, err := c04Build(cs.V)
+	fast, slow, g, err := c04Build(cs.V, cs.Shuffle)
 	if err != nil {
 		c.Violate("", "construct "+err.Error(), cs)
 		return
